@@ -45,7 +45,7 @@ func c05fields() [3]*c05field {
 	o2 := &c05oneof{idx: 1, synthetic: nd.Bool()}
 	var fs [3]*c05field
 	for i := range fs {
-		f := &c05field{num: protoreflect.FieldNumber(nd.Int32()), idx: int(nd.Uint16()), ext: nd.Bool(), name: protoreflect.FullName(nd.String(2))}
+		f := &c05field{num: protoreflect.FieldNumber(nd.Int32()), idx: int(nd.Uint16()), ext: nd.Bool(), name: protoreflect.FullName(nd.StringN(1))}
 		switch nd.Int(0, 2) {
 		case 1:
 			f.oneof = o1
@@ -86,7 +86,7 @@ func c05axioms(less FieldOrder, fs [3]*c05field) {
 // H_C05_fieldorder: the field orders used for deterministic output (and for the coder tables)
 // are strict total orders on the fields of a message, so sorting has exactly one result.
 //
-//verif:props=C05 bounds=3-fields;all-int32-numbers;all-uint16-indexes;names<=2-bytes;extension/oneof-membership-symbolic
+//verif:props=C05 bounds=3-fields;all-int32-numbers;all-uint16-indexes;names-of-1-byte;extension/oneof-membership-symbolic ifconv=1
 func H_C05_fieldorder() {
 	fs := c05fields()
 	switch nd.Int(0, 2) {
